@@ -132,16 +132,30 @@ pub fn generate(o: &GenOpts) -> Vec<Sample> {
             let name = cname(o, &sn, c, desc);
             // manysamples: a few late samples are exact copies of the sample two places earlier, so that a group whose first pack
             // (50 deltas) is already complete receives a delta that is byte-identical to one sitting in its open second pack
-            let copy_of = if o.kind == "manysamples" && i >= 53 && i % 3 == 2 { Some(i - 2) } else { None };
+            let copy_of = if o.kind == "manysamples" && i >= 80 && i % 3 == 2 { Some(i - 2) } else { None };
             let mut seq = if i == 0 {
                 b.clone()
             } else if let Some(j) = copy_of.filter(|&j| c < samples[j].contigs.len()) {
                 samples[j].contigs[c].seq.clone()
+            } else if o.kind == "manysamples" {
+                // exactly one substitution in every 40-base window, at a position and with a base that depend on the sample: any two of
+                // the first 93 samples differ in every window (so all their deltas are distinct), while ~3/4 of the k-mers survive in each
+                // sample - with >= 100 samples the reference's groups collect > 50 distinct deltas (two packs)
+                let mut q = b.clone();
+                let mut w = 0usize;
+                while w * 40 < q.len() {
+                    let pos = w * 40 + 4 + (i * 7 + w * 13) % 31;
+                    if pos < q.len() && q[pos] < 4 {
+                        q[pos] = (q[pos] + 1 + ((i / 31) % 3) as u8) % 4;
+                    }
+                    w += 1;
+                }
+                q
             } else {
                 let (snp, indel, nrun, iu) = match o.kind.as_str() {
                     "dup" | "trunc" => (0.0, 0.0, 0.0, 0.0),
                     "iupac" => (0.01, 0.002, 0.004, 0.01),
-                    "manysamples" => (if i % 3 == 0 { 0.012 } else { 0.05 }, 0.0005, 0.0, 0.0), // most segments differ from the reference: > 50 distinct deltas per group
+                    "manysamples" => (if i % 7 == 0 { 0.012 } else { 0.08 }, 0.0005, 0.0, 0.0), // nearly every segment differs from the reference and from the others: with >= 60 samples a group collects > 50 distinct deltas (>= 2 packs)
                     _ => {
                         let d = [0.0, 0.002, 0.01, 0.03, 0.10][(i + c) % 5];
                         (d, d / 5.0, if (i + c) % 3 == 0 { 0.002 } else { 0.0 }, if (i + c) % 4 == 0 { 0.003 } else { 0.0 })
